@@ -11,6 +11,7 @@ pub mod treeops;
 pub mod walk;
 pub mod hostile;
 pub mod absprop;
+pub mod differ;
 
 pub struct Prop {
     pub id: &'static str,
@@ -38,6 +39,7 @@ pub fn registry() -> Vec<Prop> {
     v.extend(walk::props());
     v.extend(hostile::props());
     v.extend(absprop::props());
+    v.extend(differ::props());
     v
 }
 
